@@ -77,10 +77,12 @@ theorem processHead_active (env : Env) (c : Conn) (m : Msg) (ha : c.state = st_A
   simp [processHead, ha, r1, r2, r3, get_of_get? hv, int_of hn, checkSeqnumGaps, st_ACTIVE,
     st_NETWORK_CONN_ESTABLISHED, st_LOGON_INITIAL_SENT, st_DISCONNECTED_BROKEN_CONN]
 
-/-- outcome of `_finalize_message` for the expected number: counter advanced, `lastTime := now`, frame
-journaled – or DuplicateSeqNoError (escaping) when the journal already holds that number -/
+/-- outcome of `_finalize_message` for the expected number: counter advanced, `lastTime := now` while
+connected (fix 5623bd4: not on a connection the dispatch has just disconnected), frame journaled – or
+DuplicateSeqNoError (escaping) when the journal already holds that number -/
 def finalized (env : Env) (c : Conn) (m : Msg) : Conn × List Effect :=
-  let c1 : Conn := { c with sess := { c.sess with nextIn := c.sess.nextIn + 1 }, lastTime := env.now }
+  let c1 : Conn := { c with sess := { c.sess with nextIn := c.sess.nextIn + 1 },
+                            lastTime := if c.state > st_DISCONNECTED_BROKEN_CONN then env.now else c.lastTime }
   match c.journal.persist .inbound c.sess.nextIn m with
   | none => (c1, [.raised .duplicateSeqNo])
   | some j => ({ c1 with journal := j }, [])
@@ -93,9 +95,10 @@ theorem finalizeMessage_inseq (env : Env) (c : Conn) (m : Msg) (h : InSeq c m)
   have hle : ¬ (c.sess.nextIn ≤ 0) := by omega
   have hst' : ¬ (c.state = st_RESENDREQ_AWAITING) := by simpa using hst
   unfold finalized
+  by_cases hc : c.state > st_DISCONNECTED_BROKEN_CONN <;>
   cases hj : c.journal.persist .inbound c.sess.nextIn m <;>
     simp [M.run, finalizeMessage, setNextNumIn, hm, has_of_get? hv, get_of_get? hv, int_of hn, hle, hst',
-      persistInbound, hv, hn, hj]
+      persistInbound, hv, hn, hj, hc]
 
 /-- `_process_message` for a valid in-sequence routine frame on ACTIVE = integrity check (passes), head
 (passes), the swallowed dispatch, then `_finalize_message` on whatever the dispatch left behind -/
